@@ -4,6 +4,7 @@ import (
 	"encoding/json"
 	"fmt"
 	"go/ast"
+	"go/constant"
 	"go/token"
 	"go/types"
 	"os"
@@ -32,7 +33,7 @@ func init() {
 			"triage/stable stages return a definite sign only on the strict side of their bound; RobustSign calls the expensive stage exactly when triage is Indeterminate; expensiveSign returns " +
 			"Indeterminate only for two identical arguments; exactSign pairs every argument swap with a sign flip and consults the symbolic perturbation exactly when the exact determinant is zero; " +
 			"the exact distance comparisons multiply by a sign only where both signs were found equal; the symbolic perturbation never returns zero.",
-		Min: 11,
+		Min: 12,
 		Run: runStages,
 	})
 	core.Register(&core.Rule{
@@ -589,6 +590,70 @@ func runStages(c *core.Ctx) []core.Obligation {
 			}
 		}
 		add("staging:"+name, fn, ok, "a definite triage answer is returned at once; the exact stage runs only after every triage returned 0", why)
+	}
+	// (8) sin^2 is increasing in the angle below 90 degrees and decreasing above: the sin^2 triage of CompareDistances is
+	// used as it is only where cos(angle) > K for some K >= 0 and with its sign flipped only where cos(angle) < K for
+	// some K <= 0 - never in between, where neither form orders the distances.
+	if fn := c.Fn("s2", "", "CompareDistances"); fn != nil {
+		ok, why, n := true, "", 0
+		core.AllInstrs(fn, func(in ssa.Instruction) {
+			call, isCall := in.(*ssa.Call)
+			if !isCall || core.StaticCallee(call) == nil || core.StaticCallee(call).Name() != "triageCompareSin2Distances" {
+				return
+			}
+			n++
+			negated := false
+			for _, r := range *call.Referrers() {
+				if u, isU := r.(*ssa.UnOp); isU && u.Op == token.SUB {
+					negated = true
+				}
+			}
+			// the guarding comparison cos ? K on every path to the call
+			guarded := false
+			for _, b := range fn.Blocks {
+				iff, isIf := b.Instrs[len(b.Instrs)-1].(*ssa.If)
+				if !isIf {
+					continue
+				}
+				bo, isBo := iff.Cond.(*ssa.BinOp)
+				if !isBo {
+					continue
+				}
+				kc, isK := bo.Y.(*ssa.Const)
+				if !isK || kc.Value == nil || (bo.Op != token.GTR && bo.Op != token.LSS && bo.Op != token.GEQ && bo.Op != token.LEQ) {
+					continue
+				}
+				if dot, isDot := bo.X.(*ssa.Call); !isDot || core.StaticCallee(dot) == nil || core.StaticCallee(dot).Name() != "Dot" {
+					continue
+				}
+				if !core.EdgeDominates(core.Edge{From: b, Idx: 0}, call.Block()) {
+					continue
+				}
+				k, _ := constant.Float64Val(constant.ToFloat(kc.Value))
+				switch {
+				case !negated && (bo.Op == token.GTR || bo.Op == token.GEQ) && k >= 0:
+					guarded = true
+				case negated && (bo.Op == token.LSS || bo.Op == token.LEQ) && k <= 0:
+					guarded = true
+				case negated:
+					why = fmt.Sprintf("the sign-flipped sin^2 comparison is used where cos(angle) %s %g, which includes angles below 90 degrees where sin^2 is increasing: a resolved comparison comes back inverted", bo.Op, k)
+				default:
+					why = fmt.Sprintf("the sin^2 comparison is used where cos(angle) %s %g, which includes angles above 90 degrees where sin^2 is decreasing", bo.Op, k)
+				}
+			}
+			if !guarded {
+				ok = false
+				if why == "" {
+					why = "a sin^2 comparison is not guarded by the sign of cos(angle)"
+				}
+			}
+		})
+		if n < 2 {
+			ok, why = false, fmt.Sprintf("only %d sin^2 triage calls found in CompareDistances, 2 expected", n)
+		}
+		add("CompareDistances:sin2-monotone-range", fn, ok, "sin^2 is compared directly only for cos > K >= 0 and with flipped sign only for cos < K <= 0", why)
+	} else {
+		add("CompareDistances:sin2-monotone-range", nil, false, "", "unresolved anchor")
 	}
 	return obs
 }
